@@ -4,7 +4,7 @@
    so a bounded queue cannot dead-lock a live idle actor against its callers. *)
 From Coq Require Import List Arith Bool Lia.
 Import ListNotations.
-From IT Require Import Runtime.Actor Runtime.Lists Runtime.ActorInv.
+From IT Require Import Runtime.Actor Runtime.Lists Runtime.ActorInv Runtime.InvReply.
 
 Section Unblock.
 Context {A V : Type}.
@@ -101,5 +101,25 @@ Proof.
   split; [exact (upd_same _ _ _ _ Hc)|].
   split; [reflexivity|]. split; [cbn; apply in_or_app; right; left; reflexivity|].
   split; reflexivity.
+Qed.
+(* ---- the third place a caller waits: on its reply.  When the actor finishes the call it is executing, the reply lands in that
+        call's own slot and the waiting caller's next step returns exactly the value this execution produced ---- *)
+Theorem reply_releases_waiter m (s : st) cid k fs rm a a' r t c :
+  alive s = true -> busy s = Some (Msg cid k fs) -> meth m k = Some rm -> actor s = Some a ->
+  sem (rm_callee rm) a (route dv (rm_args rm) fs) = Some (a', r) ->
+  rm_reply rm = true -> rm_reply_own rm = true -> slot_get (slots s) cid = Some SEmpty ->
+  nth_error (clients s) t = Some c -> c_pc c = Waiting cid k ->
+  exists s1 s2 cl, step m s Ac = Some s1 /\ actor s1 = Some a' /\ busy s1 = None
+    /\ applied s1 = applied s ++ [(cid, rm_callee rm, route dv (rm_args rm) fs, r)]
+    /\ step m s1 (Cl t) = Some s2 /\ nth_error (clients s2) t = Some cl /\ c_pc cl = Ready
+    /\ c_rets cl = c_rets c ++ [(cid, Returned r)].
+Proof.
+  intros Al B Hm Ha Hs Rr Ro Sl Hc Hpc.
+  cbn [Actor.step]. unfold step_actor. unfold alive in Al.
+  destruct (exited s) eqn:E; [discriminate|]. rewrite B, Hm, Ha, Hs, Rr, Ro, Sl.
+  eexists. eexists. exists (ret c Ready cid (Returned r)). split; [reflexivity|].
+  split; [reflexivity|]. split; [reflexivity|]. split; [reflexivity|].
+  unfold step_client. cbn. rewrite Hc, Hpc, Hm, slot_get_set_same. cbn.
+  split; [reflexivity|]. cbn. split; [exact (upd_same _ _ _ _ Hc)|]. split; reflexivity.
 Qed.
 End Unblock.
